@@ -222,6 +222,95 @@ def make_e(params, part, nparts):
     return h
 
 
+# ---------------------------------------------------------------------------
+# S tier: + and - on stub interfaces whose `extends` relation is a symbolic partial order
+# ---------------------------------------------------------------------------
+
+def make_s_algebra(params, part, nparts):
+    """The real Declaration.__add__ / __sub__ run on operands that are lists over 4 stub interfaces; the strict
+    `extends` relation between the stubs is given by 12 symbolic booleans (antisymmetry and transitivity assumed),
+    so one explored path covers every interface DAG inducing the consulted part of the relation.  The result
+    constructor is replaced by a recorder (stub, listed)."""
+    import itertools
+    from zope.interface import declarations as D
+    real_add, real_sub = D.Declaration.__add__, D.Declaration.__sub__
+    NU = 4
+    lists_a = [p for k in range(0, params.get('max_a', 2) + 1) for p in itertools.permutations(range(NU), k)]
+    lists_b = [p for k in range(0, params.get('max_b', 3) + 1) for p in itertools.permutations(range(NU), k)]
+
+    class Recorder:
+        def __init__(self, *args):
+            self.args = list(args)
+
+    def h(sa: int, sb: int, op: int,
+          e01: bool, e02: bool, e03: bool, e10: bool, e12: bool, e13: bool,
+          e20: bool, e21: bool, e23: bool, e30: bool, e31: bool, e32: bool):
+        ia = pick(sa, len(lists_a))
+        assume(ia % nparts == part)
+        a = lists_a[ia]
+        b = lists_b[pick(sb, len(lists_b))]
+        c_op = pick(op, 2)
+        E = [[False, e01, e02, e03], [e10, False, e12, e13], [e20, e21, False, e23], [e30, e31, e32, False]]
+        live = sorted(set(a) | set(b))
+        for x in live:
+            for y in live:
+                if x != y:
+                    assume(not (E[x][y] and E[y][x]))
+                    for z in live:
+                        if z != x and z != y:
+                            assume(not (E[x][y] and E[y][z]) or E[x][z])
+
+        class Stub:
+            def __init__(self, k):
+                self.k = k
+
+            def extends(self, other, strict=True):
+                if other is self:
+                    return not strict
+                return E[self.k][other.k]
+
+        U_ = [Stub(k) for k in range(NU)]
+
+        class Operand:
+            def __init__(self, idx):
+                self.idx = idx
+
+            def interfaces(self):
+                return iter([U_[k] for k in self.idx])
+        A, B = Operand(a), Operand(b)
+        reached(None, dict(A=list(a), B=list(b), op='+-'[c_op]))
+        saved = D.Declaration
+        D.Declaration = Recorder
+        try:
+            r = (real_add if c_op == 0 else real_sub)(A, B)
+        finally:
+            D.Declaration = saved
+        got = [x.k for x in r.args]
+        la, lb = list(a), list(b)
+        if c_op == 1:
+            exp = [i for i in la if not any(i == j or E[i][j] for j in lb)]
+            if got != exp:
+                raise Violation('A=%s - B=%s = %s, expected %s' % (la, lb, got, exp), signature='C20:sub')
+            return
+        new = [i for i in lb if i not in la]
+        front = [i for i in new if any(E[i][x] for x in la)]
+        strict = front + la + [i for i in new if i not in front]
+        if got != strict:
+            before, result = [], list(la)
+            for i in lb:
+                if i in result or i in before:
+                    continue
+                if any(E[i][x] for x in result):
+                    before.append(i)
+                else:
+                    result.append(i)
+            if got == before + result:
+                raise Violation('A=%s + B=%s = %s; the statement gives %s (an extender of a new interface of B moved to the front)' % (
+                    la, lb, got, strict), signature='C20:add:extender-of-new-B-interface-in-front')
+            raise Violation('A=%s + B=%s = %s, expected %s' % (la, lb, got, strict), signature='C20:add')
+    return h
+
+
 _ENC = ['zope.interface.declarations:Declaration.__contains__', 'zope.interface.declarations:Declaration.__iter__',
         'zope.interface.declarations:Declaration.flattened', 'zope.interface.declarations:Declaration.__sub__',
         'zope.interface.declarations:Declaration.__add__', 'zope.interface.declarations:_normalizeargs',
@@ -241,6 +330,17 @@ HARNESSES = [
             oracle='list/set model from the statement: iteration = flatten + de-duplicate; contains; flattened = closure in a valid '
                    'resolution order; A-B; A+B (extenders of A first, others appended, A order kept); operands unmodified; '
                    'directlyProvides/alsoProvides/noLongerProvides/directlyProvidedBy as users'),
+    Harness('s_algebra', make_s_algebra, kind='S', impls=('py',),
+            tiers=dict(quick=dict(budget_s=120, parts=16, ppt=40, params=dict(max_a=2, max_b=2)),
+                       thorough=dict(budget_s=1500, parts=16, ppt=60, params=dict(max_a=3, max_b=3))),
+            encoded=['zope.interface.declarations:Declaration.__add__', 'zope.interface.declarations:Declaration.__sub__'],
+            bounds='operands = ordered lists of distinct members over 4 stub interfaces (quick |A|,|B| <= 2, thorough <= 3; members may be shared); the '
+                   'strict extends relation is an arbitrary partial order given by 12 symbolic booleans: one path covers every interface DAG '
+                   'that induces the consulted part of the relation',
+            outside='more than 4 interfaces; the flattening of nested arguments (E tier)',
+            oracle='A - B and A + B computed from the statement over the symbolic relation',
+            stubs=['stub interfaces whose extends() reads the symbolic relation', 'operands exposing interfaces()', 'Declaration constructor replaced by a recorder'],
+            assumptions=['extends is a strict partial order (irreflexive, antisymmetric, transitive)']),
 ]
 
 MANIFEST = {
